@@ -48,6 +48,9 @@ type c09Opts struct {
 	// notes: number of notifications before the response (default 2); with many events the first body
 	// is cut at event boundaries only (ids reach two digits: cursors are ids, not numbers or strings to order)
 	notes int
+	// alwaysFail: every reconnect attempt ends in a transport error (the server is gone for good);
+	// with a large retry budget the client backs off many times - and must end the call with an error
+	alwaysFail bool
 }
 
 type c09Body struct {
@@ -286,7 +289,9 @@ func (s *c09Script) roundTrip(req *http.Request, n int) (*http.Response, error) 
 			return s.resp(200, "text/event-stream", io.NopCloser(strings.NewReader(""))), nil
 		}
 		outcome := 0
-		if s.gets <= 3 {
+		if s.o.alwaysFail {
+			outcome = 1
+		} else if s.gets <= 3 {
 			outcome = s.ch.Free("reconnect-outcome", 7) // later reconnects are always served
 		}
 		switch outcome {
@@ -337,7 +342,11 @@ func c09Run(o c09Opts, ch *verifx.Chooser) (obs, bad, sig string, steps int) {
 			}
 		}
 	}
-	ctx, cancel := context.WithTimeout(context.Background(), 10*time.Minute)
+	horizon := 10 * time.Minute
+	if o.alwaysFail {
+		horizon = 4 * time.Hour // 70 attempts with a back-off of up to a minute each
+	}
+	ctx, cancel := context.WithTimeout(context.Background(), horizon)
 	defer cancel()
 	id := func(k int) string {
 		if !o.ids {
@@ -423,7 +432,7 @@ func c09Run(o c09Opts, ch *verifx.Chooser) (obs, bad, sig string, steps int) {
 	if !o.standalone {
 		switch {
 		case ctx.Err() != nil:
-			fail("call-hangs", "the call did not return within 10 minutes of virtual time (delivered %v, resumes %v)", delivered, sc.lastIDs)
+			fail("call-hangs", "the call did not return within the horizon of virtual time (delivered %v, resumes %v)", delivered, sc.lastIDs)
 		case callErr == nil:
 			if len(res.Content) != 1 || res.Content[0].(*TextContent).Text != "done" {
 				fail("wrong-response", "the call returned %+v", res)
@@ -497,6 +506,7 @@ func TestVerifC09(t *testing.T) {
 		mk("post-stream/ids/retries=2/empty-resumes", c09Opts{ids: true, maxRetries: 2, emptyResumes: true}),
 		mk("standalone-stream/ids/retries=2", c09Opts{standalone: true, ids: true, maxRetries: 2}),
 		mk("post-stream/ids/12-events/retries=2", c09Opts{ids: true, maxRetries: 2, notes: 12}),
+		mk("post-stream/ids/retries=70/reconnects-always-fail", c09Opts{ids: true, maxRetries: 70, alwaysFail: true, notes: 12}),
 	}
 	if !env.Quick() {
 		scs = append(scs,
